@@ -9,6 +9,7 @@ and where each operand (A1 = value of the left operand, A2 = right) ends up.
 from lib import cfg, shape, protocol
 from lib.facts import callee
 from lib.rulelib import get_fn, short
+from lib.slice import leaf_producers
 
 EV = "cedar_policy_core::evaluator::"
 BOP = "cedar_policy_core::ast::ops::BinaryOp"
@@ -210,6 +211,8 @@ def unops(chk, facts):
 def check(chk, facts):
     binops(chk, facts)
     unops(chk, facts)
+    membership(chk, facts)
+    access(chk, facts)
 
 
 def check_tpe(chk, facts, rule="C14.TABLE.binop"):
@@ -217,3 +220,145 @@ def check_tpe(chk, facts, rule="C14.TABLE.binop"):
     (`in` and the tag operators are evaluated against partial entities and have no shared primitive: not examined here)."""
     binops(chk, facts, rule=rule, fname="cedar_policy_core::tpe::evaluator::Evaluator::interpret", names=("v1", "v2"),
            only=("Eq", "Less", "LessEq", "Add", "Sub", "Mul", "Contains", "ContainsAll", "ContainsAny"), floor=9, check_total=False)
+
+
+# ---------------------------------------------------------------------------------------------
+def _bool_into_blocks(f, value):
+    """Blocks calling Into::into(const <value>:bool) — how the evaluator builds literal true / false results."""
+    out = set()
+    for b, t in f.calls():
+        if callee(t).endswith("Into<U>>::into") or callee(t).endswith("::into") or callee(t).endswith("::from"):
+            if t[2] and t[2][0][0] == "k" and t[2][0][1].get("t") == "bool" and int(t[2][0][1].get("v", -1)) == value:
+                out.add(b)
+    return out
+
+
+def membership(chk, facts):
+    """`in`: reflexive, transitive through the stored ancestors, false for an entity without a record, over every element of a set."""
+    rule = "C02.TABLE.in"
+    f = get_fn(chk, facts, rule, EV + "Evaluator::eval_in")
+    if f is None:
+        return
+    trues, falses = _bool_into_blocks(f, 1), _bool_into_blocks(f, 0)
+    nexts = [(b, t) for b, t in f.calls() if callee(t).endswith("::next")]
+    lp = None
+    for b, t in nexts:
+        sws, _ = protocol.result_switches(f, t[3][0])
+        for sb, kind, arms, oth in sws:
+            if kind == "disc" and 1 in arms and 0 in arms:
+                lp = (b, arms[1], arms[0])
+    if lp is None:
+        chk.lost(rule, "loop over the right-hand uids in eval_in")
+        return
+    head, some, done = lp
+    # (1) reflexive: uid1 == uid2 on its true edge answers true without consulting the hierarchy
+    eqs = [(b, t) for b, t in f.calls() if callee(t).endswith("::eq") and "PartialEq" in callee(t) and cfg.dominates(f, some, b)]
+    desc_sites = []
+    for g in [f] + facts.closures_of(f.name):
+        for b, t in g.calls():
+            c = callee(t)
+            if c.startswith("cedar_policy_core::ast::entity::Entity::is_") or c.startswith("cedar_policy_core::ast::entity::Entity::ancestors"):
+                desc_sites.append((g, b, t))
+    refl = False
+    for b, t in eqs:
+        p0 = leaf_producers(f, t[2][0])
+        p1 = leaf_producers(f, t[2][1])
+        sides = p0 | p1
+        if "param:2" in sides and any(x.startswith("place:") for x in sides):
+            for sb, m in protocol.bool_edges(f, b):
+                r_true = cfg.reachable(f, m[True], cut_blocks={head})
+                if r_true & trues:
+                    refl = True
+    chk.ob(rule, "reflexive", refl, "`uid1 == uid2` answers true (an entity is `in` itself, with or without a record): %s" % refl, where=f.where(eqs[0][1][1].get("l") if eqs else None), fn=f.name)
+    # (2) transitive: the hierarchy test is is_descendant_of (all ancestors), not a direct-parent test
+    names = sorted({callee(t).split("::")[-1] for _, _, t in desc_sites})
+    chk.ob(rule, "transitive", names == ["is_descendant_of"], "hierarchy membership is decided by Entity::%s (required: is_descendant_of — direct and indirect ancestors)" % names,
+           where=f.where(desc_sites[0][2][1].get("l") if desc_sites else None), fn=f.name, key="%s:transitive:%s" % (rule, ",".join(names)))
+    # (3) no record -> not a descendant: unwrap_or(false)
+    uw = [(b, t) for b, t in f.calls() if callee(t).endswith("Option::<T>::unwrap_or") or callee(t).endswith("::is_some_and") or callee(t).endswith("::map_or")]
+    ok3 = bool(uw)
+    for b, t in uw:
+        c = callee(t)
+        if c.endswith("unwrap_or"):
+            ok3 &= t[2][1][0] == "k" and int(t[2][1][1].get("v", -1)) == 0
+        elif c.endswith("map_or"):
+            ok3 &= t[2][1][0] == "k" and int(t[2][1][1].get("v", -1)) == 0
+    chk.ob(rule, "absent-entity", ok3, "an entity without a record is a descendant of nothing (default false): %s" % ok3, where=f.where(uw[0][1][1].get("l") if uw else None), fn=f.name)
+    # (4) every element is considered: `false` is answered only after the loop is exhausted; inside the loop the only exits are `true` and the next iteration
+    early_false = cfg.reachable(f, some, cut_blocks={head}) & falses
+    late_false = cfg.reachable(f, done) & falses
+    chk.ob(rule, "all-elements", not early_false and bool(late_false), "false is answered only after every uid of the right-hand side was tried: %s" % (not early_false and bool(late_false)),
+           where=f.where(), fn=f.name)
+    # (5) the right-hand side is one uid or a whole entity set
+    cs = [callee(t) for _, t in f.calls()]
+    chk.ob(rule, "rhs", any(c.endswith("get_as_entity_set") for c in cs), "a set right-hand side is read with get_as_entity_set (every element must be an entity): %s" % any(c.endswith("get_as_entity_set") for c in cs),
+           where=f.where(), fn=f.name)
+
+
+def access(chk, facts):
+    """has / like / is in the evaluator: the primitive and the absent-entity rule."""
+    rule = "C02.TABLE.access"
+    f = get_fn(chk, facts, rule, EV + "Evaluator::partial_interpret_internal")
+    r = facts.adts.get("cedar_policy_core::ast::expr::ExprKind")
+    D = facts.adts.get("cedar_policy_core::entities::Dereference")
+    if f is None or r is None or D is None:
+        if D is None:
+            chk.lost(rule, "entities::Dereference")
+        return
+    from lib import hom
+    ev = hom.arm_events(facts, f, "ast::expr::ExprKind", lambda c, t: None)
+    if ev is None:
+        chk.lost(rule, "match on ExprKind")
+        return
+    arms = {r["variants"][vi]["name"]: a for vi, a in ev["arms"].items()}
+    trues, falses = _bool_into_blocks(f, 1), _bool_into_blocks(f, 0)
+    errs = {b for b, s in f.stmts() if s[0] == "a" and s[2][0] == "agg" and s[2][1][0] == "adt" and s[2][1][2] == "Err"}
+    # ---- has: absent entity -> false (never an error); present -> get(attr).is_some()
+    a = arms.get("HasAttr")
+    if a is None:
+        chk.lost(rule, "HasAttr arm")
+    else:
+        region = a["region"]
+        found = False
+        for b, scrut, sarms, other in shape.variant_switches(f, "entities::Dereference"):
+            if b not in region:
+                continue
+            found = True
+            for vi, tgt in sarms.items():
+                vn = D["variants"][vi]["name"]
+                reach = cfg.reachable(f, tgt, cut_blocks={b}) & cfg.dominated_region(f, tgt)
+                if vn == "NoSuchEntity":
+                    ok = bool(reach & falses) and not (reach & errs) and not (reach & trues)
+                    chk.ob(rule, "has:absent-entity", ok, "`e has a` on an entity without a record is false, not an error: %s" % ok, where=f.where(), fn=f.name)
+                if vn == "Data":
+                    cs = [callee(f.blocks[x]["t"]) for x in reach if f.blocks[x]["t"][0] == "call"]
+                    ok = any(c.endswith("Entity::get") for c in cs) and any(c.endswith("::is_some") for c in cs)
+                    chk.ob(rule, "has:entity", ok, "`e has a` on a stored entity is Entity::get(a).is_some(): %s" % ok, where=f.where(), fn=f.name)
+        if not found:
+            chk.lost(rule, "match on Dereference in the HasAttr arm")
+    # ---- like: pattern.wildcard_match(string value of the operand)
+    a = arms.get("Like")
+    if a is not None:
+        L = a["labels"]
+        sites = [(b, f.blocks[b]["t"]) for b in a["region"] if f.blocks[b]["t"][0] == "call" and callee(f.blocks[b]["t"]).endswith("Pattern::wildcard_match")]
+        ok = bool(sites)
+        for b, t in sites:
+            l0 = {x for x in L.operand_labels(t[2][0]) if x.startswith("Like.")}
+            l1 = {x for x in L.operand_labels(t[2][1]) if x.startswith("Like.")}
+            ok &= l0 == {"Like.pattern"} and l1 == {"Like.expr"}
+        coerced = any(callee(f.blocks[b]["t"]).endswith("get_as_string") for b in a["region"] if f.blocks[b]["t"][0] == "call")
+        chk.ob(rule, "like", ok and coerced, "`e like p` is p.wildcard_match(string value of e): %s" % (ok and coerced), where=f.where(sites[0][1][1].get("l") if sites else None), fn=f.name)
+    # ---- is: entity_type() of the value compared with the named type
+    a = arms.get("Is")
+    if a is not None:
+        L = a["labels"]
+        region = a["region"]
+        eqs = [(b, f.blocks[b]["t"]) for b in region if f.blocks[b]["t"][0] == "call" and callee(f.blocks[b]["t"]).endswith("::eq") and "PartialEq" in callee(f.blocks[b]["t"])]
+        ok = False
+        for b, t in eqs:
+            labs = [{x for x in L.operand_labels(o) if x.startswith("Is.")} for o in t[2][:2]]
+            prods = [leaf_producers(f, o) for o in t[2][:2]]
+            if {"Is.entity_type"} in labs and any(any(p.endswith("EntityUID::entity_type") for p in ps) for ps in prods):
+                ok = True
+        neg = [s for b in region for s in f.blocks[b]["st"] if s[0] == "a" and s[2][0] == "un" and s[2][1] == "Not"]
+        chk.ob(rule, "is", ok and not neg, "`e is T` compares entity_type() of the value with T, not negated: %s" % (ok and not neg), where=f.where(eqs[0][1][1].get("l") if eqs else None), fn=f.name)
